@@ -541,6 +541,7 @@ class Context:
         self.unwind = unwind
         self.solver = z3.Solver()
         self.solver.set("timeout", timeout_ms)
+        self.feas_timeout_ms = 2500
         self.stats = dict(paths=0, queries=0, solver_s=0.0, proved=0, failed=0, unknown=0,
                           infeasible=0, reach=0, unwind_fail=0)
         self.failures = []     # list of dict(label, model, info)
@@ -594,9 +595,17 @@ class Context:
         self.solver.add(z)
 
     def _check(self, *extra):
+        """feasibility / reachability query on the incremental solver (short timeout: `unknown` is treated as
+        feasible by the callers, which is an over-approximation)"""
         t = time.time()
         self.stats["queries"] += 1
-        r = self.solver.check(*extra)
+        self.solver.set("timeout", min(self.timeout_ms, self.feas_timeout_ms))
+        try:
+            r = self.solver.check(*extra)
+        finally:
+            self.solver.set("timeout", self.timeout_ms)
+        if r == z3.unknown:
+            self.stats["feas_unknown"] = self.stats.get("feas_unknown", 0) + 1
         self.stats["solver_s"] += time.time() - t
         return r
 
